@@ -390,6 +390,15 @@ pub fn property(_tier: Tier) -> Property {
                 }),
                 check: Box::new(check_slow),
             }),
+            Box::new(crate::core::ExhaustivePart {
+                name: "slow_greeting_half_a_minute",
+                rule: "the same with ONE pause of 31 s of real time (thorough: also 61 s and 121 s) before the second read, blocking and async, evaluated in parallel: a peer that takes half a minute to finish its greeting line is slow, not wrong (round numbers of seconds are what people pick for timeouts). Costs the quick tier 31 s of wall clock per build profile",
+                space: Box::new(|t: Tier| {
+                    let pauses: Vec<u64> = if t == Tier::Thorough { vec![31_000, 61_000, 121_000] } else { vec![31_000] };
+                    Box::new(pauses.into_iter().flat_map(|pause_ms| [false, true].into_iter().map(move |is_async| SlowCase { version: "0.23.5".into(), cuts: vec![3, 7, 10], pause_ms, at: 0, is_async })))
+                }),
+                check: Box::new(check_slow),
+            }),
             Box::new(RandomPart {
                 name: "password",
                 rule: "proptest over the simulator: Client::connect / connect_with_password / connect_with_password_opt with printable and multi-byte passwords; server verdict OK | OK with fields | ACK with any code | close | garbage, each optionally cut after 0-49 bytes followed by a close; any segmentation; in 1 case of 8 the peer sends complete unasked lines (OK, an ACK, a field) in the same read as its greeting, which must not be taken for the verdict. Write log: first line `password <pw>` (or idle without password), idle only after the verdict was read completely and only if it was OK, ACK => IncorrectPassword and nothing further written, cut/close/garbage => ProtocolError and nothing further written. non-trivial = non-OK verdict or a cut",
